@@ -9,7 +9,7 @@ checks = []
 for pid in allp:
     if pid not in props.PROPS or pid in T.NOT_APPLICABLE:
         continue
-    t = T.TEXT[pid]
+    t = props.TEXT[pid]
     checks.append(dict(property_id=pid, quick_cmd="./check %s --tier quick" % pid,
                        thorough_cmd="./check %s --tier thorough" % pid,
                        evidence_file="evidence/%s.json" % pid,
